@@ -3,20 +3,21 @@
 from ..campaign import Result
 from .. import strategies as S
 from ..trace import NORMAL
-from ._rt import run_case, shape_labels, RT_ASSUMPTIONS, context
+from ._rt import run_case, shape_labels, RT_ASSUMPTIONS, context, S_iter
 
 ID = 'C14'
 LEVEL = 'exploration'
 DESIGN_REF = 'DESIGN.md section 4, C14'
-TECHNIQUE = ("property-based testing: generated trees on a virtual-time loop whose quiescence "
-             "callback samples the public inspection API of every job (both atomic classes "
-             "and nested schedulers) at every instant; oracle = the state derived from the "
+TECHNIQUE = ("property-based testing: generated trees on a virtual-time loop that samples the "
+             "public inspection API of every job (both atomic classes and nested schedulers) "
+             "between any two batches of loop callbacks, at every quiescent point and after "
+             "the run; oracle = the state derived from the "
              "event trace, identity of results / exceptions, monotonicity across samples")
 LEVEL_TEXT = ("generated search; every job is sampled at every quiescent point and after the "
               "run and compared with the trace-derived state")
-LEVEL_NOTE = ("trusts the trace recorder; sampling happens when the loop is about to advance "
-              "the clock (every zero-time consequence of the instant has settled) and right "
-              "after run()")
+LEVEL_NOTE = ("trusts the trace recorder; trees of <= 40 objects are sampled at every iteration "
+              "of the event loop, larger ones when the loop is about to advance the clock, "
+              "all of them right after run()")
 RULE = ("cases: general trees (windows, failures, aborts, nesting; AbstractJob subclasses and "
         "coroutine-based Job). non-trivial: some sample shows a job queued for a window slot "
         "or a cancelled job, together with a finished one; distinct = distinct scenario digest")
@@ -120,7 +121,8 @@ def oracle(case, trace, ix, res):
 
 def evaluate_one(case):
     res = Result()
-    trace, ix = run_case(case, sampling=True, run_on=False)
+    small = sum(1 for _ in S_iter(case)) <= 40
+    trace, ix = run_case(case, sampling='every-iteration' if small else True, run_on=False)
     shape_labels(case, trace, res)
     res.nontrivial = oracle(case, trace, ix, res)
     res.sample = dict(outcome=trace.outcome, samples=len(trace.samples))
